@@ -33,7 +33,7 @@ pub fn generate(prop: &str, scenario: &str, seed: u64, run: u64) -> (Config, Vec
     let mut rng = Rng::new(seed, scenario_tag(scenario) ^ (crate::rng::fnv_str(prop) << 8), run);
     match scenario {
         "hist" => {
-            let systematic = matches!(prop, "C10" | "C12" | "C01");
+            let systematic = matches!(prop, "C10" | "C12");
             if systematic && run < SYSTEMATIC_HIST {
                 systematic_hist(prop, run)
             } else {
